@@ -62,7 +62,7 @@ CLAIMS = {
  "C19": ("Bounded symbolic verification of the local supervisor: the real LocalSupervisor.Exec (with its Wait goroutine and exit-status decoding through the real syscall.WaitStatus methods), Kill and Terminate from go/ssa against a harness model of the OS process table (replacing exec.Command, Cmd.Start/Wait, ProcessState.Sys, syscall.Getpgid/Kill); exit codes 0..255, signals 1..31 and TERM-handler codes are SMT variables; processes react to TERM in 3 ways, may resist SIGKILL, may fork a child into their group, and may end naturally at any scheduling point; 1-2 processes, 1-3 requests, every schedule within the delay bound: exactly one event with the true status per terminated process, none for a running one; Kill success only after termination and with the whole group gone, success for observed exits, error for unknown names / past deadlines / SIGKILL-resistant processes; Terminate signals the whole group and does not wait; the emulator's own process group is never signalled.",
          "Trusted: gosmt SSA semantics; the OS model (harness code) stands for the kernel: Linux wait-status encoding, group-directed signals, Setpgid. Real kernel behaviour (pid reuse, exec failures), Stop/Freeze/Thaw, >2 processes are outside; counterexamples confirmed by pinned engine re-execution only.",
          TECH + "; real supervisor code against a modelled process table"),
- "C20": ("Bounded symbolic verification with the SMT string theory: (1) GetValidRuntimeOrFunctionErrorType on an arbitrary printable-ASCII string of unbounded length against the exact-form specification (regular-expression membership); (2) the runtime identity string for user agent absent/token/token+text and 0..3 feature tokens of symbolic length: bracket form and the 128-byte bound, and immutability once features were appended; (3) error cause: all-empty / invalid documents dropped, recognised fields passed on, cropString prefix+mark for symbolic string and length.",
+ "C20": ("Bounded symbolic verification with the SMT string theory: (1) GetValidRuntimeOrFunctionErrorType on an arbitrary printable-ASCII string of unbounded length against the exact-form specification (regular-expression membership); (2) the runtime identity string for user agent absent/token/token+text and 0..3 feature tokens of symbolic length: bracket form and the 128-byte bound, and immutability once features were appended; (3) error cause: all-empty / invalid documents dropped, recognised fields passed on, cropString prefix+mark for symbolic string and length, and the 64 KiB bound of the accepted cause for escape-heavy messages (k plain letters + n six-byte-escaped characters, k and n symbolic, exact escaping for this family).",
          "Trusted: regexp -> RegLan translation, structural strings.Fields/ReplaceAll on declared tokens, cvc5/z3 string solvers. NOT claimed: the 64 KiB bound of the re-marshalled error cause under JSON escaping (both solvers time out).",
          TECH + " strings/regex"),
 }
